@@ -522,16 +522,19 @@ theorem q_handleMsgs (e : Ep) (ms : List Msg) : QStep e (handleMsgs e ms) := by
     unfold handleMsgs
     split
     · exact QStep.id e
-    · exact QStep.comp (q_handleMsg e m) (ih _)
+    · exact QStep.comp (QStep.congr_left (e' := { e with rxMore := !ms.isEmpty || e.rx.dead }) rfl (q_handleMsg _ m)) (ih _)
 
 theorem q_recvRaw (e : Ep) (chunk : Bytes) : QStep e (recvRaw e chunk) := by
   unfold recvRaw
   simp only []
   have h1 : QStep e (handleMsgs (rxEntry e chunk) (feed e.rx chunk).2) :=
     QStep.congr_left (e' := rxEntry e chunk) rfl (q_handleMsgs _ _)
+  have h2 : QStep e ({ (handleMsgs (rxEntry e chunk) (feed e.rx chunk).2).1 with rxMore := false },
+      (handleMsgs (rxEntry e chunk) (feed e.rx chunk).2).2) :=
+    QStep.congr_right (r := handleMsgs (rxEntry e chunk) (feed e.rx chunk).2) rfl rfl h1
   split
-  · exact QStep.comp h1 (q_doClose _)
-  · exact h1
+  · exact QStep.comp' h2 (q_doClose _)
+  · exact h2
 
 /- ------------------------------------------------------------------ one event -/
 
